@@ -334,4 +334,24 @@ theorem UQ_EulerVec_agrees (hT : P.Trig) (hS : P.Sqrt) (hH : HalfAngle P) (w : V
     rw [e, q2r_axis_angle (fun i => w i / n) (P.cos (n / 2)) (P.sin (n / 2)) (P.cos n) (P.sin n) htr (hH.cos_eq n) (hH.sin_eq n)]
     congr 1
     apply Mat.ext33' <;> simp [rodM, mmul, skew3, one3, Fin.sum_univ_three] <;> ring
+
+/-- **UnitQuaternion.AngVec(θ, v) and angvec2r(θ, v) (SO3.AngVec) are the same rotation** whenever the quaternion
+    constructor returns a value (any axis length; both are the identity for an axis below the zero threshold) -/
+theorem UQ_AngVec_agrees (hT : P.Trig) (hH : HalfAngle P) (th : R) (v : Vec 3 R) (q : Vec 4 R)
+    (h : Gen.UQ_AngVec P th v = .ok q) : Gen.q2r P q = Gen.angvec2r P th v := by
+  unfold Gen.UQ_AngVec at h; unfold Gen.angvec2r; simp only [] at h ⊢
+  set n := P.sqrt (v 0 * v 0 + v 1 * v 1 + v 2 * v 2) with hn
+  by_cases h1 : n < (5 : R) / 2251799813685248
+  · rw [if_pos h1] at h ⊢; cases h
+    rw [Bridge.q2r]; congr 1; apply Mat.ext33' <;> simp [Spec.q2r]
+  · rw [if_neg h1] at h ⊢
+    split_ifs at h with h2
+    cases h
+    have htr := hT (th / 2)
+    rw [Bridge.q2r]
+    have e : (v4 (P.cos (th / 2)) (P.sin (th / 2) * (v 0 / n)) (P.sin (th / 2) * (v 1 / n)) (P.sin (th / 2) * (v 2 / n)) : Vec 4 R)
+        = v4 (P.cos (th / 2)) (P.sin (th / 2) * (fun i => v i / n) 0) (P.sin (th / 2) * (fun i => v i / n) 1) (P.sin (th / 2) * (fun i => v i / n) 2) := rfl
+    rw [e, q2r_axis_angle (fun i => v i / n) (P.cos (th / 2)) (P.sin (th / 2)) (P.cos th) (P.sin th) htr (hH.cos_eq th) (hH.sin_eq th)]
+    congr 1
+    apply Mat.ext33' <;> simp [rodM, mmul, skew3, one3, Fin.sum_univ_three] <;> ring
 end SmVerif.Props.C04
